@@ -89,11 +89,31 @@ def _cases(draw, tier):
     elif sel in (4, 5, 6):
         # an end time: later files (RF and metadata) are outside the mirror's window and must be left alone
         case["end"] = (T0 + draw(st.integers(1, 5))) * 1000
+    # the window may be given as naive datetimes, which are documented to mean UTC (the checks run in another time zone)
+    case["naive"] = draw(st.booleans())
     return case
 
 
 def strategy(tier):
     return _cases(tier)
+
+
+def directed_cases(tier):
+    """Plain histories (every event delivered once, in order) with a time window given as naive datetimes - which are
+    documented to mean UTC, whatever the time zone of the process - for each method and window shape."""
+    out = []
+    steps = [{"op": ["props", 0], "p": "ok"}]
+    for i in range(6):
+        steps.append({"op": ["rf", 0, i], "p": "ok"})
+        if i % 2 == 0:
+            steps.append({"op": ["md", 0, i // 2], "p": "ok"})
+    for method in ("copy", "move", "link"):
+        for start, end in (((T0 + 3) * 1000, None), (None, (T0 + 4) * 1000), ((T0 + 2) * 1000, (T0 + 5) * 1000)):
+            for naive in (True, False):
+                out.append({"chans": [{"nfiles": 6, "gap_at": 3, "nmd": 3}], "steps": [dict(s_) for s_ in steps], "method": method,
+                            "xdev": False, "include_drf": True, "include_dmd": True, "start": start, "end": end, "fault": None,
+                            "naive": naive})
+    return out
 
 
 def sha(p):
@@ -312,6 +332,9 @@ def _run(case, res, base, stage, src, dest, ev, drf, list_drf, mirror):
         world.note("ch%d/metadata/dmd_properties.h5" % ci)
     start = None if case["start"] is None else __import__("datetime").datetime.fromtimestamp(case["start"] / 1000.0, tz=__import__("datetime").timezone.utc)
     end = None if case["end"] is None else __import__("datetime").datetime.fromtimestamp(case["end"] / 1000.0, tz=__import__("datetime").timezone.utc)
+    if case.get("naive"):
+        start = None if start is None else start.replace(tzinfo=None)
+        end = None if end is None else end.replace(tzinfo=None)
     with wrapped(world) as active:
         with contextlib.redirect_stdout(io.StringIO()):
             mir = mirror.DigitalRFMirror(src, dest, method=case["method"], starttime=start, endtime=end,
